@@ -25,8 +25,8 @@ inst <cfg> <cSent> <cAlt>              ->  <execCalls> <code|-> <stats c/l|-> <m
 cfg = the extensions in `Use` order, `;`-separated: `<hooks>:<pact>:<cact>`; hooks = letters of P C O R T F (the hook interfaces
 the type implements; T = RootFieldInterceptor); pact = p | r | f<code>; cact = p | f<code> | l<limit>.
 ```
-objs = `Name:reserved:field>key>reserved|…;…` (what `codegen.Data.Objects` holds; key = the Go field name, normalised;
-reserved = 0 | 1); entries = the `ComplexityRoot` table `Type.key=<expr>;…`. The switch model groups the fields with the
+objs = `Name:reserved[+Attr…]:field>key>reserved|…;…` (what `codegen.Data.Objects` holds; key = the Go field name, normalised;
+reserved = 0 | 1; Attr = the other boolean attributes of the object a template guard can read: `Root`, `Stream`); entries = the `ComplexityRoot` table `Type.key=<expr>;…`. The switch model groups the fields with the
 `uniqueFields` **regenerated** from `codegen/complexity.go` (`Gen/UniqueFields.lean`).
 schema  = `Name:k:Impl|Impl;…` (k = o i u x); customs = `Type.field=c:<n>|l:<a>:<b>|a:<arg>:<b>;…`;
 vars = `name=<argv>;…` (argv = i<n> | n | o); doc = comma-separated prefix tokens
@@ -137,7 +137,9 @@ def parseObjs (s : String) : Option (List ComplexitySwitch.GObject) :=
         match f.splitOn ">" with
         | [fn, k, fr] => some ({ name := fn, goName := k, reserved := fr == "1" } : FieldMap.GField)
         | _ => none
-      pure { name := n, reserved := r == "1", fields := fields }
+      -- `reserved[+Attr…]`: `0+Root+Stream` = not reserved, `$object.Root` and `$object.Stream` hold
+      let rs := r.splitOn "+"
+      pure { name := n, reserved := rs.head? == some "1", fields := fields, attrs := rs.drop 1 }
     | _ => none
 
 def rootOf (tbl : List ((String × String) × Expr)) : ComplexitySwitch.ComplexityRoot :=
